@@ -41,7 +41,7 @@ type c06Case struct {
 func c06Params() GenParams {
 	return GenParams{MinOps: 8, MaxOps: 45, WKV: 0, WCreate: 2, WDrop: 1, WAdd: 12, WBatch: 5, WImport: 1, WDel: 10, WMeta: 4, WReinforce: 1, WEvolve: 1,
 		WLink: 8, WUnlink: 3, WConfig: 0, WAutoLinks: 1, WSnapshot: 1, WRewrite: 1, WCompress: 2, WMaint: 6, WFlush: 0, WRestart: 2,
-		InvalidPct: 4, AllowInt8: true, AllowMemory: true, AllowAutoLink: true, AllowText: true, SmallEfC: true, BigBatch: true, NullMeta: true}
+		InvalidPct: 4, AllowInt8: true, AllowMemory: true, AllowAutoLink: true, AllowText: true, SmallEfC: true, BigBatch: true, NullMeta: true, ReplacePct: 15}
 }
 
 // value pools of the shared universe (ops_test.go genMeta)
@@ -285,6 +285,21 @@ func c06Enrich(t *rapid.T, ops []Op) []Op {
 						out = append(out, ul2)
 					}
 				}
+			}
+		}
+		if len(live) >= 3 && coin("x-chain", 5) {
+			// a node in the middle of a chain of ONE relation (in-edge and out-edge of the same type), often deleted
+			// right away: what its cascade leaves behind decides which nodes a scope of depth >= 2 reaches
+			perm := rapid.Permutation(live).Draw(t, "chain-nodes")
+			a, mid, b := perm[0], perm[1], perm[2]
+			rel := rapid.SampledFrom(uRels).Draw(t, "chain-rel")
+			out = append(out, Op{K: KLink, Idx: op.Idx, ID: a, ID2: mid, Rel: rel, W: 1, Why: "c06-chain"},
+				Op{K: KLink, Idx: op.Idx, ID: mid, ID2: b, Rel: rel, W: 1, Why: "c06-chain"})
+			if coin("x-chain-del", 2) {
+				out = append(out, Op{K: KDel, Idx: op.Idx, ID: mid, Why: "c06-chain-del"})
+				delete(s.live, mid)
+				s.dead[mid] = true
+				live, dead = c06SortedKeys(s.live), c06SortedKeys(s.dead)
 			}
 		}
 		if len(live) >= 2 && coin("x-del", 6) {
